@@ -3040,6 +3040,7 @@ class Qube(object):
 
         new_derivs = self._add_derivs(self,arg) # if this raises exception, stop
         self._values_ += arg._values_           # on exception, no harm done
+        self._new_values_()
         self._merge_mask_(arg._mask_)
         self._units_ = self._units_ or arg._units_
         self.insert_derivs(new_derivs)
@@ -3165,6 +3166,7 @@ class Qube(object):
 
         new_derivs = self._sub_derivs(self,arg) # if this raises exception, stop
         self._values_ -= arg._values_           # on exception, no harm done
+        self._new_values_()
         self._merge_mask_(arg._mask_)
         self._units_ = self._units_ or arg._units_
         self.insert_derivs(new_derivs)
@@ -3301,6 +3303,7 @@ class Qube(object):
 
             new_derivs = self._mul_derivs(arg)  # if this raises exception, stop
             self._values_ *= arg_values         # on exception, object unchanged
+            self._new_values_()
             self._merge_mask_(arg._mask_)
             self._units_ = Units.mul_units(self._units_, arg._units_)
             self.insert_derivs(new_derivs)
